@@ -25,7 +25,7 @@ var mediaTypeNames = []struct {
 	{regexp.MustCompile("application/.*protobuf"), "protobuf"},
 	{regexp.MustCompile("application/.*capnproto"), "capnproto"},
 	{regexp.MustCompile("application/.*thrift"), "thrift"},
-	{regexp.MustCompile("(?:application|text)/.*xml"), "xml"},
+	{regexp.MustCompile("(?:application|text)/.*xml$"), "xml"}, // xml ends the type: …wordprocessingml.document is not an XML payload
 	{regexp.MustCompile("text/.*markdown"), "markdown"},
 	{regexp.MustCompile("text/.*html"), "html"},
 	{regexp.MustCompile("text/.*csv"), "csv"},
